@@ -422,6 +422,23 @@ fn cmd_shrink(args: &[String]) {
     );
 }
 
+/// Dump the raw byte stream of a case's first plan (for the real-process stages).
+fn cmd_script(args: &[String]) {
+    let prop = args[2].as_str();
+    let base: u64 = args[3].parse().expect("base seed");
+    let index: u64 = args[4].parse().expect("index");
+    let thorough = args.get(5).map(String::as_str) == Some("thorough");
+    let seed = case_seed(base, prop, index);
+    let plans = props::generate(prop, &props::GenCtx { seed, index, thorough });
+    let mut items = vec![];
+    if let Some(p) = plans.iter().find(|p| !p.params.b("noise")) {
+        for a in &p.script {
+            items.push(a.to_json());
+        }
+    }
+    println!("{}", J::Arr(items).to_string());
+}
+
 fn cmd_show(args: &[String]) {
     let prop = args[2].as_str();
     let base: u64 = args[3].parse().expect("base seed");
@@ -470,6 +487,7 @@ pub fn main() {
         "replay" => cmd_replay(&args),
         "shrink" => cmd_shrink(&args),
         "show" => cmd_show(&args),
+        "script" => cmd_script(&args),
         _ => {
             eprintln!("usage: rce_sim selftest|run|hashes|replay|shrink|show ...");
             std::process::exit(2);
